@@ -50,6 +50,7 @@ let parse_event (line : string) : parsed =
   | "EV" :: "ReloadCall" :: [i] -> Ev (EReloadCall (n (i_ i)))
   | "EV" :: "ReloadRet" :: [i] -> Ev (EReloadRet (n (i_ i)))
   | "EV" :: "Poll" :: i :: [b] -> Ev (EPoll (n (i_ i), b = "1"))
+  | "EV" :: "PollBegin" :: [i] -> Ev (EPollBegin (n (i_ i)))
   | "EV" :: "Emit" :: i :: [x] -> Ev (EEmit (n (i_ i), n (i_ x)))
   | "EV" :: "TrigR" :: [i] -> Ev (ETrigR (n (i_ i)))
   | "EV" :: "TrigS" :: [i] -> Ev (ETrigS (n (i_ i)))
@@ -97,9 +98,10 @@ let () =
           Hashtbl.replace propfail name (1 + try Hashtbl.find propfail name with Not_found -> 0);
           Printf.printf "PROPFAIL %s %s\n" name !cur_hdr end in
       mon "C01.order" c01_order; mon "C01.exactly_once" c01_exactly_once; mon "C01.not_before" c01_not_before;
-      mon "C03.gate" c03_gate; mon "C03.once" c03_once;
+      mon "C03.gate" c03_gate; mon "C03.once" c03_once; mon "C03.pending" c03_pending;
+      mon "C01.cancel_after" c01_cancel_after;
       mon "C04" c04_holdsb; mon "C04.cause" c04_needs_cause; mon "C04.nil" c04_nil;
-      mon "C05.shape" c05_shape; mon "C05.no_dup" c05_no_dup; mon "C06" c06_holdsb;
+      mon "C05.shape" c05_shape; mon "C05.no_dup" c05_no_dup; mon "C06" c06_holdsb; mon "C06.final" c06_final;
       mon "C18.final" c18_holdsb; mon "C18.bounded" c18_bounded;
       let d = int_of_nat (sup_depth cfg fuel evs) in
       List.iter (fun l -> match String.split_on_char ' ' l with
